@@ -217,6 +217,9 @@ func c06Random(run *mon.Run, rng *mon.Rand, length int, sample bool) {
 	e := newL2Env(L2EnvOpts{})
 	e.L2.Speculate = rng.Bool() // half of the schedules: every transaction runs first on a throw-away branch (CheckTx)
 	if rng.Bool() {
+		e.EnableShadow(rng.U64()) // and other transactions run on discarded branches in between
+	}
+	if rng.Bool() {
 		// the bank module already knows the bridged uusdc (metadata from bank genesis or set by another module)
 		d := e.L2Denom("uusdc")
 		e.L2.BK.SetDenomMetaData(e.L2.Ctx, banktypes.Metadata{Base: d, Display: "usdc", Name: "pre-registered", Symbol: "USDC",
